@@ -100,6 +100,12 @@ func checkHistory(prop string, o *Outcome, items int) []Violation {
 	if !o.Returned || len(o.Calls) == 0 {
 		return vs
 	}
+	if o.CallsAtReturn >= 0 && o.CallsAtReturn < len(o.Calls) {
+		// a test ran on a sample after the verdict had been returned: that
+		// sample cannot have been part of the judgement
+		late := o.Calls[o.CallsAtReturn]
+		vs = append(vs, v(prop, "late-judgement", "%d runner calls happened after the workflow had returned its verdict (first: item %d on sample %d)", len(o.Calls)-o.CallsAtReturn, late.Item, late.Sample))
+	}
 	for it := 0; it < items; it++ {
 		for k := 0; k < wi.Samples; k++ {
 			n := seen[[2]int{it, k}]
